@@ -235,11 +235,22 @@ def run(ctx):
         c = dict(name="preger_sim6", kind="preger", n0=[8000, 7000], nch=[3, 3], ref=[[2], [0]], maxlen=6,
                  dec=[(2, "default"), (3, "default"), (2, "fir"), (3, "n4")], det=["linear", "constant"], fil=[1, 2])
         run_config(ctx, c, alphabet, run_names=[], simulate="num=400")
+    # direction B: recorded executions (the repository's own test_plot_data, seeded random drivers longer than the exhaustive
+    # bound) validated against TraceSetup.tla
+    from . import trace_setup
+
+    trace_setup.run(ctx, "C14")
     ctx.exhaustive = True
-    ctx.extra["exhaustive_note"] = "exhaustive up to MaxLen per configuration; *_sim6 configurations are sampled"
+    ctx.extra["exhaustive_note"] = "exhaustive up to MaxLen per configuration; *_sim6 configurations and recorded traces are sampled"
 
 
 def replay(ctx, body):
+    if body.get("trace"):
+        from . import trace_setup
+
+        r = trace_setup.validate_one((0, body["trace_json"], ctx.scratch))
+        print(r)
+        return bool(r.get("accepted"))
     cs = {c["name"]: c for t in ("quick", "thorough") for c in configs(t)}
     c = cs.get(body["config"])
     if c is None:
